@@ -95,11 +95,40 @@ func c09HangFile() string {
 	if st == "" || dir == "" {
 		return ""
 	}
-	return filepath.Join(dir, fmt.Sprintf("hangs-%d-%s", os.Getppid(), st))
+	// one breaker per pipeline run: the main run, every GOMAXPROCS run and every race run start with a fresh one, so that
+	// hangs in the main run do not un-run the schedule runs (and vice versa)
+	run := "main"
+	if g := os.Getenv("GOMAXPROCS"); g != "" {
+		run = "g" + g
+	}
+	if c09RaceBuild {
+		run += "race"
+	}
+	return c09HangFileFor(run)
+}
+
+func c09HangFileFor(run string) string {
+	st := c09StartTime(os.Getppid())
+	dir := c09StateDir()
+	if st == "" || dir == "" {
+		return ""
+	}
+	return filepath.Join(dir, fmt.Sprintf("hangs-%d-%s-%s", os.Getppid(), st, run))
 }
 
 func c09HungRequests() []string {
-	name := c09HangFile()
+	// A schedule run (GOMAXPROCS-n / race) has its own breaker, so hangs of one run do not un-run another — with one
+	// exception: when the MAIN run's breaker is open (three in-quantifier calls did not return there: a non-termination
+	// regression, already reported with failing inputs) the schedule runs are not executed either.  At GOMAXPROCS=1 a call
+	// that spawns goroutines without end starves the timers, so neither this watchdog nor the runner's deadline fires and
+	// the run could not be ended at all.
+	if main := c09ReadHangs(c09HangFileFor("main")); len(main) >= c09MaxHangs {
+		return main
+	}
+	return c09ReadHangs(c09HangFile())
+}
+
+func c09ReadHangs(name string) []string {
 	if name == "" {
 		return nil
 	}
@@ -125,7 +154,7 @@ func init() {
 	names, _ := filepath.Glob(filepath.Join(dir, "hangs-*"))
 	for _, n := range names {
 		parts := strings.Split(filepath.Base(n), "-")
-		if len(parts) != 3 {
+		if len(parts) != 4 {
 			os.Remove(n)
 			continue
 		}
